@@ -46,6 +46,9 @@ type zzMsgs struct {
 	// acknowledged for method S.Watch and answered with an error for any other method, a close-stream
 	// request is acknowledged, a stream message is not answered
 	autoStreams bool
+	// lateWriteErr: the frame is written (and, with auto, answered) and the write is then reported as
+	// failed all the same (an error that surfaces after the bytes have left)
+	lateWriteErr func(n int) error
 }
 
 func newZZMsgs(capIn int) *zzMsgs {
@@ -126,6 +129,13 @@ func (m *zzMsgs) WriteMessage(b []byte) error {
 			if answer {
 				m.in <- zzFrame{data: zzResponse(r.Seq, errText, reply)}
 			}
+		}
+	}
+	if err == nil && m.lateWriteErr != nil {
+		if err = m.lateWriteErr(n); err != nil {
+			m.mu.Unlock()
+			vYield() // the answer may be read and processed before the writer learns of the failure
+			return err
 		}
 	}
 	m.mu.Unlock()
